@@ -10,9 +10,10 @@ import (
 
 func init() {
 	register(&Driver{
-		ID:        "C02",
-		Technique: "exhaustive enumeration of labelled dependency digraphs (all graphs for n<=3, structured families up to 256 nodes), each executed as a real container start under a harness-owned iteration order; reference-model oracle + call/nesting budgets for termination",
-		Rule:      "programs = labelled digraphs over universal nodes (edge kinds: none / required by-name / optional by-name / slice member; self loops included) x base iteration orders; non-trivial = contains a cycle, a self loop or a fan-in >= 2; distinct = distinct (graph, order) pairs",
+		ID:              "C02",
+		HangIsViolation: true,
+		Technique:       "exhaustive enumeration of labelled dependency digraphs (all graphs for n<=3, structured families up to 256 nodes), each executed as a real container start under a harness-owned iteration order; reference-model oracle + call/nesting budgets for termination",
+		Rule:            "programs = labelled digraphs over universal nodes (edge kinds: none / required by-name / optional by-name / slice member; self loops included) x base iteration orders; non-trivial = contains a cycle, a self loop or a fan-in >= 2; distinct = distinct (graph, order) pairs",
 		Assumptions: []string{
 			"graphs beyond the enumerated sizes and families are not covered",
 			"post-processors do not substitute components in this family (C03 covers substitution)",
